@@ -649,6 +649,45 @@ func (te *TEnv) call(x ECall) TV {
 			sfail("typeis: unknown type %s", name.V)
 		}
 		return TV{T(SBool, "(= (itag %s) %d)", t.S, v.eng.tags.tag(gt)), nil}
+	case "isclosure":
+		// isclosure(f, "pkg.Outer$1", c1, c2, ...): f is the function literal Outer$1 made with exactly
+		// these captured values (in the order the literal captures them)
+		name, ok := arg(1).(EStr)
+		if !ok {
+			sfail("isclosure wants a function key string")
+		}
+		fval := te.tr(arg(0)).V
+		if ft, isT := fval.(Term); isT {
+			// a literal that captures nothing is a plain function value
+			if fn := v.fnTerms[ft.S]; fn != nil && v.eng.funcKey(fn) == name.V && len(x.Args) == 2 {
+				return TV{TTrue, nil}
+			}
+			return TV{TFalse, nil}
+		}
+		cv, isC := fval.(*ClosureV)
+		if !isC || v.eng.funcKey(cv.Fn) != name.V {
+			return TV{TFalse, nil}
+		}
+		if len(cv.Bindings) != len(x.Args)-2 {
+			sfail("isclosure: %s captures %d variables, %d given", name.V, len(cv.Bindings), len(x.Args)-2)
+		}
+		var eqs []Term
+		for i, b := range cv.Bindings {
+			bt, isT := b.(Term)
+			if !isT {
+				sfail("isclosure: captured variable %d of %s is not a scalar", i, name.V)
+			}
+			// a variable captured by reference: compare what it holds now
+			if i < len(cv.Fn.FreeVars) {
+				if pt, isP := cv.Fn.FreeVars[i].Type().Underlying().(*types.Pointer); isP && bt.Sort == SRef {
+					if lv, isT := v.loadCell(te.st, bt, pt.Elem(), true).(Term); isT {
+						bt = lv
+					}
+				}
+			}
+			eqs = append(eqs, Eq(bt, te.term(arg(2+i))))
+		}
+		return TV{And(eqs...), nil}
 	case "isPlainErr":
 		// an error made by errors.New / fmt.Errorf / pkg/errors (no richer dynamic type)
 		t := te.term(arg(0))
